@@ -29,23 +29,30 @@ ASSUMPTIONS = [
     "the elastic stiffness C of the 3D elastic law is the trusted input (checked by C11)",
     "reference formulas for phi (von Mises, Hill 1948, Drucker-Prager), R(p), X = 2/3 C alpha and "
     "sigma = C:(eps-eps_p) - sum g_i C:eps_v_i are transcribed from the documented model definitions",
-    "the local solvers are held to their documented stopping rules (1e-10 x max(sigma_y,1) on f; "
-    "plane stress |sigma_zz| < max(1e-8 max(sigma_y,1), 1e-9 C_zzzz)), with a 100x margin",
+    "the local solvers are held to their documented stopping rules with a 100x margin: 1e-10 max(sigma_y,1) on f, "
+    "1e-10 (absolute, dimensionless) on the strain-like rows (hence slack 1e-8 on dp, 1e-8 x stress scale on the "
+    "dissipation, 1e-8 per step on tr eps_p), plane stress |sigma_zz| < max(1e-8 max(sigma_y,1), 1e-9 C_zzzz)",
     "steps whose converged flag is False (or whose plane-stress / global Newton asserts non-convergence) "
     "are outside the quantifier: the point keeps its committed state / the case is inconclusive",
-    "finite-difference tangent only in directions whose perturbed points (at h, h/4 and 8h) keep the "
-    "active set of the centre point",
+    "finite-difference tangent only in directions whose perturbed points (at h, h/4 and 8h) keep the active set of "
+    "the centre point; the difference quotient (h, h/4, Richardson) is evaluated on a second Behavior instance whose "
+    "solver tolerances (_tol, _planeStress_tol) are tightened to 1e-13, the tangent under test comes from the "
+    "untouched instance",
+    "solver agreement is compared away from exact neutral loading (|f_trial| <= 1e-8 max(sigma_y,1)), where either "
+    "one-sided tangent is legitimate",
+    "simu_commit reads the committed state through the name-mangled attribute _InElastic__zOld and Result('p')",
 ]
 
-TOL_ID = 1e-12      # identity level
+TOL_ID = 1e-12      # identity level (pure re-orderings of flops)
 TOL_F = 1e-8        # 100 x the local stopping rule 1e-10
 TOL_PS = 1e-6       # 100 x the plane-stress stopping rule (scale = max(sy, 1, 0.1 Czz) -> 1e-8)
-TOL_FD = 1e-5       # finite differences
-TOL_FD_PS = 1e-4    # finite differences through the plane-stress iteration (see check_tangent)
-TOL_STATE = 1e-9    # returned stress vs stress of the returned state / inequalities after a local Newton
-TOL_SOLVERS = 1e-8
+TOL_FD = 1e-5       # finite differences (honest 8e-10 over 5 seeds)
+TOL_FD_PS = 1e-4    # finite differences through the plane-stress iteration: the condensed tangent assumes
+#                     sigma_zz = 0 exactly while the iteration stops at its tolerance (honest 3.6e-7 over 5 seeds)
+TOL_STATE = 1e-9    # returned stress vs stress of the returned state (honest 7e-14)
+TOL_SOLVERS = 1e-8  # 100 x the absolute stopping tolerance of both local solvers
 TOL_COMMIT = 1e-3   # committed state vs state integrated at the saved displacement: the global Newton updates u once
-#                     after its last assembly, so the two differ by the last (sub-tolerance) correction, ~1e-6 observed
+#                     after its last assembly, so the two differ by the last (sub-tolerance) correction, 1.5e-6 observed
 
 
 # ------------------------------------------------------------------------------------------
@@ -127,18 +134,21 @@ def step_oracles(rec, spec, ref, sc, sg, eps6, z0, z1, sig_ret, m, k):
     if spec["yield"] is not None:
         dp = ref.p(z1) - ref.p(z0)
         flowing = m & (dp > 0)
-        geq0(rec, dp[m], sc.eps, TOL_ID, "dp_nonneg", f"step {k}: plastic multiplier increment < 0;", **sg)
+        # dGamma is clipped at 0 and the row dp - dGamma is solved to the documented 1e-10 (dimensionless, absolute)
+        geq0(rec, dp[m], 1.0, TOL_F, "dp_nonneg", f"step {k}: plastic multiplier increment < 0;", **sg)
         if spec["rate"] is None:
             f = ref.f(sig6, z1)
             geq0(rec, -f[m], sc.f, TOL_F, "admissible", f"step {k}: f(sigma-X,R) > 0 after the return;", **sg)
         if spec["yield"]["kind"] == "vm":
             ep = ref.get(z1, "eps_p")
-            rec.close(ep[..., :3].sum(-1)[m], sc.eps, TOL_STATE, "eps_p_traceless",
+            # each step solves deps_p - dGamma N = 0 to the documented 1e-10 (absolute): the trace may drift by that
+            rec.close(ep[..., :3].sum(-1)[m], float(k + 1), TOL_F, "eps_p_traceless",
                       f"step {k}: tr eps_p != 0 for von Mises;", **sg)
     Dp, Dv = ref.dissipation(eps6, z0, z1)
-    geq0(rec, Dp[m], sc.sig * sc.eps, TOL_STATE, "dissipation_plastic",
+    # slack: stress scale x the documented absolute tolerance (1e-10, x100) of the strain-like residual rows
+    geq0(rec, Dp[m], sc.sig, TOL_F, "dissipation_plastic",
          f"step {k}: sigma:deps_p - X:dalpha - R dp < 0;", **sg)
-    geq0(rec, Dv[m], sc.sig * sc.eps, TOL_STATE, "dissipation_viscous",
+    geq0(rec, Dv[m], sc.sig, TOL_F, "dissipation_viscous",
          f"step {k}: Maxwell branch dissipation < 0;", **sg)
     return flowing
 
